@@ -22,5 +22,5 @@ OutOK(ev) ==
 
 TInit == l = 1
 TNext == /\ l <= Len(Log) /\ l' = l + 1
-         /\ IF Ev.e = "sort" /\ OutOK(Ev) THEN TRUE ELSE PrintT(<<"REJECT", l, Ev.e>>)
+         /\ IF Ev.e = "sort" /\ OutOK(Ev) THEN TRUE ELSE PrintT("REJECT " \o ToString(l) \o " " \o ToString(Ev.e))
 =============================================================================
